@@ -196,6 +196,10 @@ def run(ctx, res):
     adts = builder_adts(F, D)
     res.floor("builder types", len(adts), 18)
     n_set, n_coll, per = setter_rules(F, D, res, adts)
+    # the packet-builder enum wrapper: every method on every variant is the wrapped builder's own (rule shared with C14)
+    from .c14 import packet_builder_forwarding
+    n_fw_ = packet_builder_forwarding(F, D, res, {B.name: B for B in discover(F)})
+    res.floor("PacketBuilder forwarding arms", n_fw_, 24)
     res.floor("(method, field) pairs checked", n_set, 80)
     res.floor("collection adders checked", n_coll, 6)
     # ---- constructors of the owned / borrowed pairs agree on every plain field
